@@ -292,6 +292,7 @@ class Report:
     """Collects what one check run did; prints VIOLATION / KNOWN-FINDING lines; writes evidence."""
 
     def __init__(self, pid, tier, seed, level='proof'):
+        self.n_with_input = 0
         self.pid, self.tier, self.seed, self.level = pid, tier, seed, level
         self.t0 = time.time()
         self.violations = []          # (replay path, text)
@@ -357,6 +358,8 @@ class Report:
         if not found_input:
             line += ' no-failing-input-found'
         self.violations.append((path, what))
+        if found_input:
+            self.n_with_input = getattr(self, 'n_with_input', 0) + 1     # failing inputs reported as VIOLATION (known findings excluded)
         # print at most 20 violations with a failing input and 8 without one (a broken tie often repeats itself for every
         # generated case and must not crowd out the failing inputs the oracle finds afterwards)
         key = '_printed_in' if found_input else '_printed_no'
